@@ -6,9 +6,9 @@ CONSTANTS
   NQ = 1
   MaxLatch = 1
   FileSteps = FALSE
-  QKinds = {"past", "exact", "future"}
-  Fix = {}
+  QKinds = {"zero", "past", "exact", "future"}
+  Fix = {"stale", "zero", "tmp"}
   KKOps = {"U", "R", "T"}
 VIEW view
-INVARIANTS TypeOK FinishedOnlyAfter Answer ErrorTextExact NoLostUpdate QueryComplete TagAtomic
+INVARIANTS TypeOK FinishedOnlyAfter Answer ErrorTextExact NoLostUpdate QueryTruth QueryComplete TagAtomic
 CHECK_DEADLOCK FALSE
